@@ -53,6 +53,7 @@ func (u *Universe) verifyFunc(fi *FuncInfo) (obls []*Obl, rep FuncReport) {
 	}()
 	e.numberSites(fi.Decl.Body)
 	e.owned = e.ownedSlices(fi.Decl.Body)
+	e.privUntil = e.privateUntil(fi.Decl.Body)
 	st := newState()
 	assigned := e.assignedIn(fi.Decl.Body)
 	e.entryEnv = map[string]Val{}
